@@ -12,7 +12,7 @@
    small arguments; `res` is its specified result and the successor state holds the specified bytes.  The replayer
    compares the result, ALL bytes (plus guard bytes around the Go-supplied backing slice), and every view's
    byteOffset / length; the access monitor hooked into the ptr() functions panics before any access outside the buffer.
-   Exploration is bounded by MaxOps operations from the initial contents (byte i = 10*i + 1). *)
+   Exploration is bounded by MaxOps operations from the initial contents (byte i = (37*i + 100) mod 256). *)
 EXTENDS Integers, Sequences, FiniteSets, TLC, Json
 
 CONSTANTS BufLen, MaxOps, Views
@@ -28,7 +28,8 @@ ES(k) == CASE k \in {"u8", "i8", "u8c"} -> 1 [] k \in {"u16", "i16"} -> 2 [] k \
 \* covered as byte movers only -- copyWithin, reverse, slice, subarray, aliasing)
 Numeric(k) == k \in {"u8", "i8", "u8c", "u16", "i16"}
 
-Init == bytes = [i \in 1..BufLen |-> 10 * i + 1] /\ detached = "F" /\ nops = 0 /\ act = [op |-> "init"]
+InitByte(i) == (37 * i + 100) % 256          \* 137 174 211 248 29 66 103 140: both signs under every signed kind
+Init == bytes = [i \in 1..BufLen |-> InitByte(i)] /\ detached = "F" /\ nops = 0 /\ act = [op |-> "init"]
 
 Min(a, b) == IF a < b THEN a ELSE b
 Max(a, b) == IF a > b THEN a ELSE b
@@ -178,7 +179,8 @@ Next ==
        \/ \E s \in {0, 1, -1}, e \in {99, 1, -1} : Slice(v, s, e) \/ Subarray(v, s, e)
        \/ \E w \in VIds, o \in {0, 1} : SetFrom(v, w, o)
        \/ \E o \in {0, 1, 3} : SetArr(v, o)
-       \/ \E m \in {"fill", "copyWithin", "put", "set", "slice", "subarray", "sort", "filter", "map", "indexOf", "join", "reverse-getter"} : DetachDuring(v, m)
+       \/ \E m \in {"fill", "copyWithin", "put", "set", "slice", "subarray", "sort", "filter", "map", "indexOf", "join", "reverse-getter",
+                       "toLocaleString", "every", "some", "find", "findLast", "reduce", "reduceRight", "lastIndexOf", "includes", "forEach-set"} : DetachDuring(v, m)
   \/ \E kind \in {"u8", "i8", "u16", "i16"}, p \in {-1, 0, 1, 3, 5}, le \in {"T", "F"} :
        DvGet(kind, p, le) \/ (\E n \in {258, -1} : DvSet(kind, p, n, le))
   \/ \E s \in {0, 2, -1}, e \in {99, 3} : BufSlice(s, e)
@@ -199,7 +201,7 @@ DvWindow == [][(act'.op = "dvset" /\ detached' = "F") => \A j \in 1..BufLen : (j
 ViewFamily == << [k |-> "u8", off |-> 0, len |-> 8], [k |-> "u8", off |-> 2, len |-> 4], [k |-> "i8", off |-> 1, len |-> 3],
                  [k |-> "u16", off |-> 2, len |-> 2], [k |-> "i16", off |-> 0, len |-> 4], [k |-> "u32", off |-> 4, len |-> 1],
                  [k |-> "u8c", off |-> 3, len |-> 2], [k |-> "f64", off |-> 0, len |-> 1], [k |-> "f32", off |-> 4, len |-> 1],
-                 [k |-> "u16", off |-> 4, len |-> 1] >>
+                 [k |-> "u16", off |-> 4, len |-> 1], [k |-> "i8", off |-> 2, len |-> 2] >>
 St == [bytes |-> bytes, detached |-> detached, n |-> nops]
 StP == [bytes |-> bytes', detached |-> detached', n |-> nops']
 Emit == PrintT(ToJson([f |-> St, l |-> act', t |-> StP]))
